@@ -19,9 +19,9 @@ struct Case {
 
 fn offchain_weights() -> CWeights {
 	CWeights {
-		fwd: 14,
-		fwd_ready: 16,
-		claim: 14,
+		fwd: 12,
+		fwd_ready: 18,
+		claim: 8,
 		fail: 5,
 		deliver: 40,
 		flush: 3,
@@ -32,17 +32,20 @@ fn offchain_weights() -> CWeights {
 		reconnect: 8,
 		timer: 1,
 		async_b: 10,
-		complete_b: 12,
+		complete_b: 14,
 		snapshot_b: 8,
-		restart_b: 5,
+		restart_b: 2,
 		force_close: 0,
 		mine: 2,
 		mine_to: 0,
+		claim_then: 12,
+		close_then_claim: 0,
+		claim_then_close: false,
 	}
 }
 
 fn onchain_weights() -> CWeights {
-	CWeights { force_close: 5, mine: 10, mine_to: 5, restart_b: 4, deliver: 30, ..offchain_weights() }
+	CWeights { force_close: 3, mine: 10, mine_to: 6, deliver: 30, fwd: 8, fwd_ready: 24, claim_then: 8, close_then_claim: 14, claim_then_close: true, ..offchain_weights() }
 }
 
 fn topologies() -> Vec<Topology> {
@@ -50,8 +53,23 @@ fn topologies() -> Vec<Topology> {
 }
 
 fn strat(w: CWeights, min_ops: usize, max_ops: usize) -> impl Strategy<Value = Case> {
-	(world_spec(topologies()), proptest::collection::vec(cop_strategy(w), min_ops..max_ops), proptest::collection::vec(proptest::bool::weighted(0.75), 1..6))
-		.prop_map(|(spec, ops, resolutions)| Case { spec, ops, resolutions })
+	(world_spec(topologies()), proptest::bool::weighted(0.7), proptest::collection::vec(cop_strategy(w), min_ops..max_ops), proptest::collection::vec(proptest::bool::weighted(0.75), 1..6)).prop_map(
+		|(mut spec, roomy, ops, resolutions)| {
+			if roomy {
+				// most worlds leave room for forwarding; the rest keep the tight generated limits (refusals)
+				spec.dust_exposure_fixed_msat = None;
+				spec.dust_exposure_multiplier = spec.dust_exposure_multiplier.max(10_000);
+				spec.inflight_pct = 100;
+				spec.max_accepted = spec.max_accepted.max(20);
+				spec.htlc_min_msat = spec.htlc_min_msat.min(1000);
+				spec.reserve_ppm = spec.reserve_ppm.min(20_000);
+				for v in spec.value_sat.iter_mut() {
+					*v = (*v).max(100_000);
+				}
+			}
+			Case { spec, ops, resolutions }
+		},
+	)
 }
 
 fn cpu_ms() -> u64 {
@@ -151,6 +169,9 @@ fn oracle_inner(c: &Case, ctx: &mut Ctx, sim: &mut Sim) -> CaseResult {
 		CType::Anchors => "type:anchors_zero_fee_htlc",
 		CType::ZeroFee => "type:zero_fee_commitments",
 	});
+	for t in ["claim-then", "close-then-claim", "mine-to-expiry", "force-close", "send-refused"] {
+		ctx.label_if(tags.contains(&t), &format!("op:{}", t));
+	}
 	ctx.label_if(st.forwarded > 0, "forwarded");
 	ctx.label_if(st.refused_forwards > 0, "forward-refused-and-failed-back");
 	ctx.label_if(st.fee_edge[0] > 0, "forwarded-at-exact-policy-fee");
